@@ -117,7 +117,7 @@ impl Scenario for HmacSplit {
                 let mut fill = 0usize;
                 let tiny = rng.chance(1, 8);
                 for _ in 0..nops {
-                    let len = if tiny { rng.below(4) as usize } else { hashctx::chunk_len(rng, b, fill, false).min(4096) };
+                    let len = if tiny { rng.below(4) as usize } else if rng.chance(1, 500) { hashctx::big_len(rng, false) } else { hashctx::chunk_len(rng, b, fill, false).min(4096) };
                     let dseed = match rng.below(16) { 0 => 0, 1 => 1, _ => rng.data_seed() };
                     t.ops.push(Op::new(0, K_INPUT).len(len).seed(dseed).off(rng.below(32) as u8));
                     fill += len;
@@ -161,7 +161,7 @@ impl Scenario for HmacSplit {
                     if finished {
                         continue;
                     }
-                    let len = (op.len as usize).min(8192);
+                    let len = (op.len as usize).min(300_000);
                     let a = Aligned::new(op.seed, len, (op.off % 32) as usize);
                     obs.cov((di << 8) | ((class as u32) << 4) | hashctx::chunk_class(len, log.len(), info.spec_block));
                     if len == 0 {
